@@ -3,7 +3,10 @@ import asyncio
 
 
 class Gate:
-    def __init__(self, choices):
+    def __init__(self, choices, sticky=False):
+        # sticky: a choice keeps releasing the task released last (3 times out of 4) so that one task can run many
+        # steps while another stays parked in the middle of its work; otherwise every choice picks afresh
+        self.sticky = sticky
         self.choices = list(choices)
         self.ci = 0
         self.parked = {}      # build index -> future
@@ -69,7 +72,12 @@ class Gate:
             order = sorted(self.parked)
             c = self.choices[self.ci] if self.ci < len(self.choices) else 0
             self.ci += 1
-            idx = order[c % len(order)]
+            if self.sticky and self.last in self.parked and c % 4 != 0:
+                idx = self.last
+            elif self.sticky:
+                idx = order[(c // 4) % len(order)]
+            else:
+                idx = order[c % len(order)]
             if self.last is not None and idx != self.last and self.last in self.active:
                 self.switches += 1
             self.last = idx
